@@ -443,6 +443,203 @@ func c06wPrepare(gen string, u *schema.Universe, r *schema.Resource, m *schema.M
 	return valid, validOuts, singles
 }
 
+// unknownFieldSites lists the JSON objects of a response body that are records or envelopes (not maps keyed by
+// entity keys): the body itself, "paging", "metadata", every element of "elements", every value of "results" /
+// "errors", "error" objects below them.
+func unknownFieldSites(m *schema.Method, body interface{}) [][]string {
+	obj, ok := body.(map[string]interface{})
+	if !ok {
+		return nil
+	}
+	sites := [][]string{{}}
+	for _, k := range []string{"paging", "metadata"} {
+		if _, ok := obj[k].(map[string]interface{}); ok {
+			sites = append(sites, []string{k})
+		}
+	}
+	if arr, ok := obj["elements"].([]interface{}); ok {
+		for i, e := range arr {
+			if eo, ok := e.(map[string]interface{}); ok {
+				sites = append(sites, []string{"elements", "[" + strconv.Itoa(i) + "]"})
+				if _, ok := eo["error"].(map[string]interface{}); ok {
+					sites = append(sites, []string{"elements", "[" + strconv.Itoa(i) + "]", "error"})
+				}
+			}
+		}
+	}
+	for _, mk := range []string{"results", "errors"} {
+		if mp, ok := obj[mk].(map[string]interface{}); ok {
+			var ks []string
+			for k := range mp {
+				ks = append(ks, k)
+			}
+			sort.Strings(ks)
+			for _, k := range ks {
+				if _, ok := mp[k].(map[string]interface{}); ok {
+					sites = append(sites, []string{mk, k})
+				}
+			}
+		}
+	}
+	return sites
+}
+
+// canonGo renders a Go value by content: pointers are followed (result maps of complex-key resources are keyed by
+// the caller's key pointers), map entries sorted by their rendered key.
+func canonGo(v reflect.Value) string {
+	if !v.IsValid() {
+		return "<invalid>"
+	}
+	switch v.Kind() {
+	case reflect.Ptr, reflect.Interface:
+		if v.IsNil() {
+			return "nil"
+		}
+		return "&" + canonGo(v.Elem())
+	case reflect.Struct:
+		var parts []string
+		for i := 0; i < v.NumField(); i++ {
+			if v.Type().Field(i).PkgPath != "" {
+				continue
+			}
+			parts = append(parts, v.Type().Field(i).Name+":"+canonGo(v.Field(i)))
+		}
+		return "{" + strings.Join(parts, " ") + "}"
+	case reflect.Slice, reflect.Array:
+		if v.Kind() == reflect.Slice && v.IsNil() {
+			return "nil[]"
+		}
+		var parts []string
+		for i := 0; i < v.Len(); i++ {
+			parts = append(parts, canonGo(v.Index(i)))
+		}
+		return "[" + strings.Join(parts, " ") + "]"
+	case reflect.Map:
+		if v.IsNil() {
+			return "nilmap"
+		}
+		var parts []string
+		for _, k := range v.MapKeys() {
+			parts = append(parts, canonGo(k)+"=>"+canonGo(v.MapIndex(k)))
+		}
+		sort.Strings(parts)
+		return "map[" + strings.Join(parts, " ") + "]"
+	}
+	return fmt.Sprintf("%#v", v.Interface())
+}
+
+func jsonObjectAt(root interface{}, path []string) map[string]interface{} {
+	cur := root
+	for _, p := range path {
+		if strings.HasPrefix(p, "[") {
+			i, _ := strconv.Atoi(strings.Trim(p, "[]"))
+			cur = cur.([]interface{})[i]
+		} else {
+			cur = cur.(map[string]interface{})[p]
+		}
+	}
+	o, _ := cur.(map[string]interface{})
+	return o
+}
+
+// unknownFieldCase: the complete response with an unknown field of the given shape added to one record / envelope
+// object must give the client exactly what the complete response gives it.
+func unknownFieldCase(gen string, u *schema.Universe, r *schema.Resource, m *schema.Method, site []string, shape string, strict bool, valid *wire.Exchange, validOuts []reflect.Value) (kind, detail string) {
+	var body interface{}
+	dec := json.NewDecoder(bytes.NewReader(valid.Body))
+	dec.UseNumber()
+	if err := dec.Decode(&body); err != nil {
+		return "", ""
+	}
+	o := jsonObjectAt(body, site)
+	if o == nil {
+		report.Internal("no object at %v in %s", site, valid.Body)
+	}
+	var extra interface{}
+	if err := json.Unmarshal([]byte(shape), &extra); err != nil {
+		report.Internal("bad shape %s", shape)
+	}
+	o["zzUnknown"] = extra
+	o["$aaUnknown"] = extra
+	mutated, _ := json.Marshal(body)
+	cfg := DefaultConfig
+	cfg.Strict = strict
+	w := NewWorld(u, cfg)
+	w.transport.Respond = func(x *wire.Exchange) *http.Response {
+		return &http.Response{StatusCode: valid.Response.StatusCode, Status: valid.Response.Status, Proto: "HTTP/1.1", ProtoMajor: 1, ProtoMinor: 1,
+			Header: valid.Response.Header.Clone(), Body: io.NopCloser(bytes.NewReader(mutated)), ContentLength: int64(len(mutated))}
+	}
+	call, reply := buildCall(gen, r, m, "none", nil)
+	outs, pan := w.Do(call, reply)
+	if pan != nil {
+		return "client-panic", fmt.Sprintf("response %s: %v", mutated, pan)
+	}
+	if ev := outs[len(outs)-1]; !ev.IsNil() {
+		return "unknown-field-refused", fmt.Sprintf("response %s (unknown fields added at %q): %v", mutated, scopeString(site), ev.Interface())
+	}
+	for i := 0; i < len(outs)-1; i++ {
+		if canonGo(outs[i]) != canonGo(validOuts[i]) {
+			return "unknown-field-disturbs", fmt.Sprintf("response %s (unknown fields added at %q): the client returned %s, the complete response gave %s", mutated, scopeString(site), canonGo(outs[i]), canonGo(validOuts[i]))
+		}
+	}
+	return "", ""
+}
+
+func partC06WUnknown(a *hcli.Args, rep *report.Report, univName string, u *schema.Universe) {
+	s := rep.S("unknown-envelope-fields")
+	shapes := []string{`7`, `"s"`, `null`, `{"a":{"b":[1,{"c":null}]},"d":"e"}`, `[1,[2,[3]],{"k":"v"}]`, `{}`, `[]`}
+	item, nm := 0, 0
+	for _, r := range u.Resources {
+		if len(r.ReadOnly)+len(r.CreateOnly) > 0 {
+			continue
+		}
+		for _, m := range r.Methods {
+			item++
+			if !a.Mine(item) {
+				continue
+			}
+			w := NewWorld(u, DefaultConfig)
+			call, reply := buildCall(a.Gen, r, m, "none", nil)
+			validOuts, pan := w.Do(call, reply)
+			valid := w.transport.Last()
+			if pan != nil || valid == nil || !validOuts[len(validOuts)-1].IsNil() || len(valid.Body) == 0 {
+				continue
+			}
+			var body interface{}
+			dec := json.NewDecoder(bytes.NewReader(valid.Body))
+			dec.UseNumber()
+			if dec.Decode(&body) != nil {
+				continue
+			}
+			nm++
+			s.States++
+			for _, site := range unknownFieldSites(m, body) {
+				for _, shape := range shapes {
+					for _, strict := range []bool{false, true} {
+						kind, detail := unknownFieldCase(a.Gen, u, r, m, site, shape, strict, valid, validOuts)
+						s.Evaluations++
+						s.Transitions++
+						s.Traces++
+						if kind != "" {
+							where := "body"
+							if len(site) > 0 {
+								where = site[0]
+							}
+							rep.Fail(fmt.Sprintf("%s wire-unknown %s %s %s at=%s", a.Gen, kind, resourceKind(r), ClientMethod(m), where),
+								fmt.Sprintf("%s.%s %s", r.Name(), ClientMethod(m), detail),
+								lenientReplay{a.Gen, "C06W", univName, r.Namespace, m.Name, []string{"unknown@" + scopeString(site), shape}, false, strict})
+							s.Class("fail:" + kind)
+						} else {
+							s.Class("ok:" + ClientMethod(m))
+						}
+					}
+				}
+			}
+		}
+	}
+	s.Bounds = fmt.Sprintf("every method whose response has a JSON body x every record / envelope object of it (body, paging, metadata, each element, each results / errors value, error objects) x %d shapes of unknown field (added under two names sorting first and last) x {lenient, strict} client: the call must succeed and return exactly what the complete response gives", len(shapes))
+}
+
 func partC06W(a *hcli.Args, rep *report.Report, univName string, u *schema.Universe) {
 	s := rep.S("lenient-client")
 	item := 0
@@ -503,6 +700,7 @@ func partC06W(a *hcli.Args, rep *report.Report, univName string, u *schema.Unive
 			}
 		}
 	}
+	partC06WUnknown(a, rep, univName, u)
 	s.Bounds = fmt.Sprintf("%d resources, %d methods answering with an entity; per method every required path present in the entity deleted and nulled, every pair deleted (quick: neighbouring pairs); each on a lenient and a strict client", nres, nmeth)
 	rep.Sample(map[string]interface{}{"case": "get with a required field deleted from the response", "lenient": "value with the other fields, no error", "strict": "same value + MissingRequiredFieldsError{that path}"})
 }
